@@ -233,6 +233,23 @@ func cellParam(a *ssa.Alloc) *ssa.Parameter {
 	return nil
 }
 
+// singleStore: the only value ever stored (as a whole) into the cell, if the
+// cell is stored to exactly once.
+func singleStore(a *ssa.Alloc) ssa.Value {
+	var v ssa.Value
+	n := 0
+	for _, ref := range *a.Referrers() {
+		if st, ok := ref.(*ssa.Store); ok && st.Addr == ssa.Value(a) {
+			n++
+			v = st.Val
+		}
+	}
+	if n == 1 {
+		return v
+	}
+	return nil
+}
+
 // apOf computes the access path of a value.
 func apOf(v ssa.Value) AP {
 	switch x := v.(type) {
@@ -281,6 +298,14 @@ func apOf(v ssa.Value) AP {
 	case *ssa.Alloc:
 		if p := cellParam(x); p != nil {
 			return AP{Root: p}
+		}
+		if sv := singleStore(x); sv != nil {
+			// a local holding a copy of another value: the path names the origin
+			if _, isConst := sv.(*ssa.Const); !isConst {
+				if a := apOf(sv); a.Root != ssa.Value(x) {
+					return a
+				}
+			}
 		}
 	}
 	return AP{Root: v}
